@@ -251,6 +251,9 @@ func c13SessionCases(c *Ctx, n int) {
 			opens = append(opens, c13SessOpen{file: r.Intn(len(files)), start: c13U64(r), limit: c13U64(r), offset: c13U64(r), bias: -1,
 				edge: []uint64{c13U64(r)}})
 		}
+		if len(opens) > 0 && r.P(1, 4) { // the same mapping opened again (a report re-opening the object file)
+			opens = append(opens, opens[r.Intn(len(opens))])
+		}
 		// the order in which a profile lists mappings / a report touches them is arbitrary
 		for i := len(opens) - 1; i > 0; i-- {
 			j := r.Intn(i + 1)
